@@ -9,6 +9,7 @@ import (
 	"strings"
 	"testing"
 
+	"github.com/pkg/xattr"
 	"replay/gwtest"
 )
 
@@ -82,5 +83,33 @@ func TestVersionIdWithSeparatorsIsNotResolved(t *testing.T) {
 	for n := 3; n <= 9; n++ {
 		up := strings.Repeat("../", n)
 		mustNotLeak(t, "GET /mine/obj?versionId="+up+"canary", g.Get(c, "/mine/obj?versionId="+up+"canary", nil))
+	}
+}
+
+// The admin call change-bucket-owner took its bucket parameter as a path: "../outside" put the ACL attribute on a
+// directory beside the gateway root, "mine/obj" on an object file.
+func TestChangeBucketOwnerBucketIsAName(t *testing.T) {
+	g := gwtest.Start(t, gwtest.Options{Admin: true})
+	c := g.RootC
+	g.MustStatus(g.Put(c, "/mine", nil, nil), 200, "create bucket mine")
+	g.AddUser("alice", "alicesecret", "user")
+	outside := filepath.Join(g.Top, "outside")
+	if err := os.Mkdir(outside, 0o755); err != nil {
+		t.Fatal(err)
+	}
+	g.MustStatus(g.Put(c, "/mine/obj", []byte("x"), nil), 200, "put mine/obj")
+	for _, b := range []string{"..%2Foutside", "mine%2Fobj"} {
+		r := g.Do(gwtest.Req{Method: "PATCH", Target: "/change-bucket-owner?bucket=" + b + "&owner=alice", Cred: c})
+		if r.Err != nil || r.Status/100 == 2 {
+			t.Errorf("change-bucket-owner bucket=%s: %v, want a 4xx error", b, r)
+		}
+	}
+	for _, p := range []string{outside, filepath.Join(g.Root, "mine", "obj")} {
+		if v, err := xattr.Get(p, "user.acl"); err == nil {
+			t.Errorf("%s now carries a bucket ACL: %s", p, v)
+		}
+	}
+	if r := g.Do(gwtest.Req{Method: "PATCH", Target: "/change-bucket-owner?bucket=mine&owner=alice", Cred: c}); r.Status != 200 {
+		t.Errorf("change-bucket-owner of an existing bucket: %v", r)
 	}
 }
